@@ -234,6 +234,11 @@ def run_shard(spec, acc):
             if rnd.random() < 0.3:
                 prog = prog + [['return', None]]
             text = '\n'.join(pp(prog))
+            if rnd.random() < 0.35:
+                # characters that str.splitlines() treats as line boundaries but the language does not (only LF / CRLF end a line):
+                # inside string literals and comments they are ordinary characters, whatever the input form is
+                exotic = rnd.choice(['\x0c', '\x0b', '\x1c', '\x85', '\u2028', '\u2029', '\r'])
+                text = text + f"\nxs{i} = 'a{exotic}b' + \"c{exotic}\"\n# comment with {exotic} inside\nsystemLog(xs{i})"
             if rnd.random() < 0.3:
                 text = "include 'a b.bare'\ninclude <sys lib.bare>\n" + text + "\nlbl1:\njumpif (va < 3) lbl1\njump lbl2\nlbl2:"
             check_rewrites(f'gen{i}', text, spec['rewrites'], rnd, acc, api, exhaustive_chunks=text.count('\n') <= 9)
